@@ -150,6 +150,10 @@ func (srv *Srv) flush(req *SrvReq) {
 	verifPoint("flush.enter", req)
 	conn.Lock()
 	r := conn.reqs[tag]
+	if r == req {
+		// a Tflush that names its own tag has nothing to flush
+		r = nil
+	}
 	if r != nil {
 		req.flushnext = r.flushreq
 		r.flushreq = req
